@@ -45,3 +45,43 @@ pub fn ctl_kind_only<D: GarnishData>(data: &mut D, ends: Vec<(Instruction, Optio
     }
     Ok(())
 }
+
+pub fn ok_matches_form<D: GarnishData>(data: &mut D, ends: Vec<(Instruction, Option<D::Size>)>, last: Option<(Instruction, Option<D::Size>)>) -> Result<(), D::Error> {
+    for end in ends {
+        let already_ended = matches!(last.clone(), Some(i) if i == end);
+        if !already_ended {
+            data.push_instruction(end.0, end.1)?;
+        }
+    }
+    Ok(())
+}
+
+pub fn ok_continue_form<D: GarnishData>(data: &mut D, ends: Vec<(Instruction, Option<D::Size>)>, last: Option<(Instruction, Option<D::Size>)>) -> Result<(), D::Error> {
+    for end in ends {
+        if last == Some(end.clone()) {
+            continue;
+        }
+        data.push_instruction(end.0, end.1)?;
+    }
+    Ok(())
+}
+
+pub fn ctl_continue_kind_only<D: GarnishData>(data: &mut D, ends: Vec<(Instruction, Option<D::Size>)>, last: Option<(Instruction, Option<D::Size>)>) -> Result<(), D::Error> {
+    for end in ends {
+        if last.clone().map(|i| i.0) == Some(end.0) {
+            continue;
+        }
+        data.push_instruction(end.0, end.1)?;
+    }
+    Ok(())
+}
+
+pub fn ctl_matches_kind_only<D: GarnishData>(data: &mut D, ends: Vec<(Instruction, Option<D::Size>)>, last: Option<(Instruction, Option<D::Size>)>) -> Result<(), D::Error> {
+    for end in ends {
+        let already_ended = matches!(last.clone(), Some(i) if i.0 == end.0);
+        if !already_ended {
+            data.push_instruction(end.0, end.1)?;
+        }
+    }
+    Ok(())
+}
